@@ -261,8 +261,10 @@ Lemma apply_op_BInv src0 ops st o :
   BInv src0 (stages_of ops) st -> BInv src0 (stages_of (ops ++ [o])) (apply_op st o).
 Proof.
   intros H. unfold stages_of. rewrite flat_map_app. cbn [flat_map]. rewrite app_nil_r.
-  destruct o as [s|n|n]; cbn [apply_op].
+  destruct o as [s|n|n|n]; cbn [apply_op].
   - apply apply_stage_BInv. exact H.
+  - rewrite app_nil_r. destruct H as [(c1 & c2 & E & H1 & H2 & H3 & H4)].
+    constructor. exists c1, c2. cbn. auto.
   - rewrite app_nil_r. destruct H as [(c1 & c2 & E & H1 & H2 & H3 & H4)].
     constructor. exists c1, c2. cbn. auto.
   - rewrite app_nil_r. destruct H as [(c1 & c2 & E & H1 & H2 & H3 & H4)].
@@ -318,11 +320,12 @@ Definition set_params (p : Params) (o : op V) : Params :=
   | OStage _ => p
   | ONumThreads n => with_num_threads p (nt_of_usize n)
   | OChunkSize n => with_chunk_size p (cs_of_usize n)
+  | OChunkMin n => with_chunk_size p (CSMin n)
   end.
 
 Lemma apply_op_params st o : ps_params (apply_op st o) = set_params (ps_params st) o.
 Proof.
-  destruct o as [s|n|n]; cbn; try reflexivity.
+  destruct o as [s|n|n|n]; cbn; try reflexivity.
   unfold apply_stage. destruct (eager _ _); reflexivity.
 Qed.
 
@@ -344,6 +347,7 @@ Fixpoint last_chunk (ops : list (op V)) (d : ChunkSize) : ChunkSize :=
   match ops with
   | [] => d
   | OChunkSize n :: r => last_chunk r (cs_of_usize n)
+  | OChunkMin n :: r => last_chunk r (CSMin n)
   | _ :: r => last_chunk r d
   end.
 
@@ -352,7 +356,7 @@ Lemma fold_set_params ops (pr : Params) :
   mkParams (last_threads ops (p_threads pr)) (last_chunk ops (p_chunk pr)).
 Proof.
   revert pr; induction ops as [|o ops IH]; intros pr; [destruct pr; reflexivity|].
-  cbn [fold_left]. rewrite IH. destruct o as [s|n|n]; reflexivity.
+  cbn [fold_left]. rewrite IH. destruct o as [s|n|n|n]; reflexivity.
 Qed.
 
 Theorem build_params_last src ops :
@@ -413,7 +417,7 @@ Qed.
 Theorem setters_lazy st o : (forall s, o <> OStage s) ->
   ps_clog (apply_op st o) = ps_clog st /\ ps_consumed (apply_op st o) = ps_consumed st /\
   ps_src (apply_op st o) = ps_src st /\ ps_par (apply_op st o) = ps_par st.
-Proof. intros H. destruct o as [s|n|n]; cbn; auto. exfalso. now apply (H s). Qed.
+Proof. intros H. destruct o as [s|n|n|n]; cbn; auto. exfalso. now apply (H s). Qed.
 
 (** At a known eager site the whole upstream stage is evaluated during construction. *)
 Theorem apply_stage_eager st s :
